@@ -265,6 +265,58 @@ func (t *Tunnel) Do(q Req) *Resp {
 
 func (t *Tunnel) Close() { t.tls.Close() }
 
+// Pipeline writes all requests with one Write (HTTP/1.1 pipelining: the later requests are on the wire before the
+// earlier ones are answered) and then reads the responses in order. After the first failure the rest carry the
+// same error.
+func (t *Tunnel) Pipeline(qs []Req) []*Resp {
+	out := make([]*Resp, len(qs))
+	var wire bytes.Buffer
+	methods := make([]string, len(qs))
+	for i, q := range qs {
+		wire.Write(composeRequest(q, t.Target))
+		methods[i] = q.Method
+		if methods[i] == "" {
+			methods[i] = "GET"
+		}
+	}
+	t.tls.SetDeadline(time.Now().Add(8 * time.Second))
+	call := Now()
+	_, werr := t.tls.Write(wire.Bytes())
+	var failed error
+	if werr != nil {
+		failed = fmt.Errorf("write: %w", werr)
+	}
+	for i := range qs {
+		r := &Resp{Call: call}
+		out[i] = r
+		if failed != nil {
+			r.Err, r.Ret = failed, Now()
+			continue
+		}
+		resp, err := http.ReadResponse(t.br, &http.Request{Method: methods[i]})
+		r.HeaderAt = Now()
+		if err != nil {
+			failed = fmt.Errorf("read response %d of the pipeline: %w", i, err)
+			r.Err, r.Ret = failed, Now()
+			continue
+		}
+		r.Status, r.Proto, r.Header, r.ContentLen = resp.StatusCode, resp.Proto, resp.Header, resp.ContentLength
+		for _, te := range resp.TransferEncoding {
+			if te == "chunked" {
+				r.Chunked = true
+			}
+		}
+		body, err := io.ReadAll(resp.Body)
+		r.Body = body
+		if err != nil {
+			failed = fmt.Errorf("read body %d of the pipeline after %d bytes: %w", i, len(body), err)
+			r.Err = failed
+		}
+		r.Ret = Now()
+	}
+	return out
+}
+
 // Mode names a transport.
 type Mode string
 
